@@ -1,3 +1,4 @@
+import Fzf.Lemmas.Iter
 import Fzf.Lemmas.Tokenizer
 import Fzf.Lemmas.Transform
 /-
@@ -65,5 +66,27 @@ example : (transform [⟨[97, 32], 0⟩, ⟨[98, 32], 2⟩, ⟨[99], 4⟩] [rang
 example : tokenize [32, 97, 32, 32, 98] .awk = [⟨[97, 32, 32], 1⟩, ⟨[98], 4⟩] := by decide
 example : LocsOK 0 5 [(1, 2), (3, 5)] := by simp [LocsOK]
 example : tokenize [97, 58, 98] (.str [58]) = [⟨[97, 58], 0⟩, ⟨[98], 2⟩] := by decide
+
+/-- **With --nth a term can only match inside the selected fields, and what is reported refers to
+    the whole line.** When a term is reported to match (for any of the seven match functions, any
+    flags), there is a selected field (token) in which its match function reports the match and
+    no earlier selected field has one; the reported range, score and highlight positions are that
+    match shifted by the field's character offset in the line (`C10_offsets`: that offset is
+    where the field starts). -/
+theorem C10_match_inside_selected_field (cfg : Algo.Cfg) (v2 : Bool) (typ : Pattern.TermType) (cs norm fwd : Bool)
+    (p : Array Nat) (wp : Bool) (cap : Nat) (toks : List Pattern.Tok) (res : Int × Int × Int × Option (List Nat))
+    (h : Pattern.iter cfg v2 typ toks cs norm fwd p wp cap = .ok (some res)) :
+    ∃ pre tk post r, toks = pre ++ tk :: post ∧
+      Pattern.runTerm cfg v2 typ cs norm fwd tk.text tk.isBytes p wp cap = .ok r ∧ 0 ≤ r.start ∧
+      res = (r.start + tk.prefixLength, r.stop + tk.prefixLength, r.score, r.pos.map (·.map (· + tk.prefixLength))) ∧
+      ∀ t ∈ pre, ∃ r', Pattern.runTerm cfg v2 typ cs norm fwd t.text t.isBytes p wp cap = .ok r' ∧ r'.start < 0 :=
+  Pattern.iter_some cfg v2 typ cs norm fwd p wp cap toks res h
+
+/-- … and a term is reported as not matching only when it matches in none of the selected fields. -/
+theorem C10_no_match_in_any_selected_field (cfg : Algo.Cfg) (v2 : Bool) (typ : Pattern.TermType) (cs norm fwd : Bool)
+    (p : Array Nat) (wp : Bool) (cap : Nat) (toks : List Pattern.Tok)
+    (h : Pattern.iter cfg v2 typ toks cs norm fwd p wp cap = .ok none) :
+    ∀ t ∈ toks, ∃ r, Pattern.runTerm cfg v2 typ cs norm fwd t.text t.isBytes p wp cap = .ok r ∧ r.start < 0 :=
+  Pattern.iter_none cfg v2 typ cs norm fwd p wp cap toks h
 
 end Fzf.Props.C10
